@@ -198,7 +198,7 @@ func init() {
 	pbt.Describe("rapid-generated directories of 1-6 conventional Java units (jgen) whose import lines carry a verdict by construction: must-keep (wildcard, static wildcard, simple name used as field / parameter / return / generic-argument type, superclass, annotation, `new`, static receiver, catch type, throws, used static import), must-delete (single-type import whose simple name occurs nowhere else in the file) and free (unused static single import); imports in any order, separated by blank lines, after header comments. History: some units present, then a rapid-generated sequence of `run removal` / `add the next unit`, always ending with two runs, all in one process without resetting the tool's state in between. Oracle after every run: every present file equals its original minus whole import lines that respect the verdicts, and a file cleaned by an earlier run is byte-identical afterwards. Non-trivial = >= 2 files present, >= 2 of them with a must-delete import, >= 1 must-keep import; distinct = hash of the case.",
 		"a name that occurs only inside a comment or literal is never used as an import's simple name (the statement does not say whether that counts as a reference)",
 		"one import per line")
-	pbt.Register("removal", 200, 1000, gen, check)
+	pbt.Register("removal", 600, 2500, gen, check)
 }
 
 func TestProp(t *testing.T)   { pbt.Main(t) }
